@@ -62,11 +62,49 @@ theorem emit_fields (e : Em) (k : LineKind) (d : List Nat) (i l f : String) (dg 
   | some e2 =>
     refine Or.inr ?_
     rcases AsmLemmas.write_some e e2 d hw with ⟨hn, rfl⟩ | ⟨c, hc, hle, rfl⟩
-    · simp only
+    · simp only [emitTail]
       refine ⟨trivial, ?_, ?_, ?_, ?_, ?_, ?_, Or.inl ⟨hn, ?_⟩⟩ <;>
         (cases dg <;> simp only [emitBase] <;> (repeat' split) <;> simp)
-    · simp only
+    · simp only [emitTail]
       refine ⟨trivial, ?_, ?_, ?_, ?_, ?_, ?_, Or.inr ⟨c, hc, hle, ?_⟩⟩ <;>
         (cases dg <;> simp only [emitBase] <;> (repeat' split) <;> simp)
+
+/-- the fields of an `emitBytes` result -/
+theorem emitBytes_fields (e : Em) (b : List Nat) :
+    ((emitBytes e b).2 = .refused ∧ (emitBytes e b).1.code = e.code ∧ (emitBytes e b).1.address = e.address ∧
+        (emitBytes e b).1.labels = e.labels ∧ (emitBytes e b).1.cap = e.cap ∧ (∃ c, e.cap = some c ∧ c < e.code.length + b.length) ∧
+        (emitBytes e b).1.genText = e.genText) ∨
+    ((emitBytes e b).2 = .ok ∧ (emitBytes e b).1.address = e.address + b.length ∧
+      (emitBytes e b).1.labels = e.labels ∧ (emitBytes e b).1.flags = e.flags ∧ (emitBytes e b).1.cap = e.cap ∧
+      ((e.cap = none ∧ (emitBytes e b).1.code = e.code) ∨
+       (∃ c, e.cap = some c ∧ e.code.length + b.length ≤ c ∧ (emitBytes e b).1.code = e.code ++ b)) ∧
+      (emitBytes e b).1.genText = e.genText) := by
+  unfold emitBytes
+  generalize he1 : (if e.genText = true then
+      { emitBase e with lines := (emitBase e).lines ++ dbLines (emitBase e).address b } else e) = e1
+  have hf : e1.code = e.code ∧ e1.address = e.address ∧ e1.labels = e.labels ∧ e1.cap = e.cap ∧ e1.flags = e.flags ∧ e1.genText = e.genText := by
+    subst he1; simp only [emitBase]; (repeat' split) <;> simp_all
+  obtain ⟨f1, f2, f3, f4, f5, f6⟩ := hf
+  simp only
+  cases hw : write e1 b with
+  | none =>
+    obtain ⟨c, hc, hlt⟩ := AsmLemmas.write_none e1 b hw
+    exact Or.inl ⟨rfl, f1, f2, f3, f4, ⟨c, by rw [← f4]; exact hc, by rw [← f1]; exact hlt⟩, f6⟩
+  | some e2 =>
+    refine Or.inr ?_
+    rcases AsmLemmas.write_some e1 e2 b hw with ⟨hn, rfl⟩ | ⟨c, hc, hle, rfl⟩
+    · exact ⟨rfl, by simp [f2], f3, f5, f4, Or.inl ⟨by rw [← f4]; exact hn, f1⟩, f6⟩
+    · exact ⟨rfl, by simp [f2], f3, f5, f4, Or.inr ⟨c, by rw [← f4]; exact hc, by rw [← f1]; exact hle, by simp [f1]⟩, by simp [f6]⟩
+
+theorem label_fields (e : Em) (n : String) :
+    ((label e n).2 = .refused ∧ (label e n).1 = e ∧ (lookup e.labels n).isSome) ∨
+    ((label e n).2 = .ok ∧ lookup e.labels n = none ∧ (label e n).1.code = e.code ∧ (label e n).1.address = e.address ∧
+      (label e n).1.labels = e.labels ++ [(n, e.address)] ∧ (label e n).1.flags = e.flags ∧ (label e n).1.cap = e.cap ∧
+      (label e n).1.genText = e.genText) := by
+  unfold label
+  cases h : lookup e.labels n with
+  | some v => exact Or.inl ⟨rfl, rfl, rfl⟩
+  | none => refine Or.inr ⟨rfl, rfl, ?_, ?_, ?_, ?_, ?_, ?_⟩ <;> (simp only; split <;> rfl)
+
 
 end AsmModel
